@@ -747,6 +747,10 @@ static void run_sequence(const struct cfg *c, int maxops)
 
 		g_op = i;
 		hist_ops++;
+		/* AUTO_RESIZE: let the worker finish any lazy resize queued by the previous call, so
+		 * that the next call sees a deterministic bucket count (reproducible traces) */
+		if (ht_flags & CDS_LFHT_AUTO_RESIZE)
+			quiesce();
 		if (r < 22) {
 			if ((id = pick_state(FRESH, 1, DEAD)) >= 0) do_add(id, hash, key);
 		} else if (r < 34) {
